@@ -587,6 +587,7 @@ func runC20(e *Env) error {
 	// error, or the same statements and reference targets; references are qualified, unqualified-unique and
 	// unqualified-ambiguous (two schemas hold a table of that name)
 	c20RealmOrder(e)
+	c20Replan(e)
 	// the same schema split over several HCL files (names sharing a numeric prefix, differing only in
 	// zero padding, in sub-directories): evaluating the same files again and again gives the same realm
 	for _, s := range seeds {
